@@ -58,3 +58,62 @@ def finish_unbuildable(ctx, unb):
     ctx.extra["replay_unbuildable"] = ctx.extra.get("replay_unbuildable", 0) + len(unb)
     if unb and not ctx.viol:
         raise vlib.ToolError("%d generated cases could not be built through the public API: %s" % (len(unb), unb[0]))
+
+
+def event_detail(ev, index, limit=400000):
+    s = json.dumps(ev)
+    return {"index": index, "event": ev} if len(s) <= limit else {"index": index, "event_truncated": s[:limit]}
+
+
+def round_trip_check(ctx, pid, binary, mc_module, gen_cfg, trace_module, fmt, actions_quick, actions_thorough,
+                     record_args, describe_case, describe_event, nontrivial_case, nontrivial_event):
+    """Common body of C17 / C18: value -> mila serialize -> archive content / image -> mila re-read -> re-serialize."""
+    model_check(ctx, mc_module, actions_quick + ([] if ctx.quick() else actions_thorough))
+    cases = generate(ctx, mc_module, gen_cfg)
+    summ, mism, unb = replay(ctx, binary, fmt + "-replay", cases, fmt)
+    for o in mism:
+        c = cases[o["i"]]
+        sig = {"dir": "spec->impl", "what": o["what"]}
+        sig.update(describe_case(c))
+        sig["got"] = shrink(o["got"], 500)
+        ctx.violation(sig, {"case": c, "what": o["what"], "got": shrink(o["got"], 20000)})
+    ctx.traces += summ["cases"] - len(unb)
+    ctx.evaluations += 4 * summ["cases"]
+    ctx.nontrivial += sum(1 for c in cases if nontrivial_case(c))
+    ctx.extra["generated_values"] = len(cases)
+    ctx.extra["generated_with_file_image"] = sum(1 for c in cases if c["image"])
+    mid = cases[len(cases) // 2]
+    ctx.sample({"replayed_case": dict(describe_case(mid), content_bytes=len(mid["content"]["data"]),
+                                      strings=len(mid["content"]["text"]), image_bytes=len(mid["image"]))})
+    # impl -> spec
+    tpath = ctx.path(fmt + "_trace.ndjson")
+    ctx.harness(binary, [fmt + "-record", tpath] + [str(a) for a in record_args])
+    events = vlib.read_ndjson(tpath)
+    rep = validate(ctx, trace_module, tpath, len(events))
+    for b in rep["bad"]:
+        ev = events[b["i"] - 1]
+        sig = {"dir": "impl->spec", "failed": b["why"], "src": ev["src"], "status": ev["status"][:200]}
+        sig.update(describe_event(ev))
+        ctx.violation(sig, event_detail(ev, b["i"]))
+    ctx.traces += len(events)
+    ctx.evaluations += len(events)
+    ctx.nontrivial += sum(1 for e in events if nontrivial_event(e))
+    ctx.extra["recorded_events"] = len(events)
+    ctx.extra["recorded_with_file_image"] = sum(1 for e in events if e["bytes"])
+    ctx.extra["recorded_sources"] = sorted(set(e["src"] for e in events))
+    ctx.sample({"recorded_event": dict(describe_event(events[min(3, len(events) - 1)]), src=events[min(3, len(events) - 1)]["src"])})
+    ctx.exhaustive = True
+    finish_unbuildable(ctx, unb)
+
+
+def round_trip_replay(ctx, rp, binary, fmt):
+    d = rp["detail"]
+    if "case" in d:
+        summ, mism, unb = replay(ctx, binary, fmt + "-replay", [d["case"]], fmt)
+        for o in mism:
+            print(o["what"], "got:", json.dumps(o["got"])[:600])
+        if mism:
+            ctx.violation(rp["sig"], d)
+    else:
+        print("recorded event %s (re-run ./check %s --tier %s --seed %s to reproduce)" %
+              (d.get("index"), rp["property"], rp.get("tier"), rp.get("seed")))
